@@ -21,7 +21,7 @@ def demo_flags(demo):
         if m not in flags: flags.append(m)
     for m in re.findall(r"(?<!\w)-D\w+(?:=\w+)?", head):
         if m not in flags and m not in ("-DCMAKE_BUILD_TYPE=RelWithDebInfo",): flags.append(m)
-    for m in re.findall(r"-fno-[\w-]+", head):
+    for m in re.findall(r"-fno-[\w-]+(?:=[\w,]+)?", head):
         if m not in flags: flags.append(m)
     if "-O0" in head: flags.append("-O0")
     return flags
@@ -36,7 +36,7 @@ def build_demo(wt, demo, out, flags):
     return sh(cmd), cmd
 
 ROOT_PREFIX = os.environ.get("SEED_ROOT", "qm")      # qm = round 1, qn = round 2
-KEEP_AS = {"qm": {"A": "A", "B": "B"}, "qn": {"A": "C", "B": "D"}, "qo": {"A": "E", "B": "F"}}
+KEEP_AS = {"qm": {"A": "A", "B": "B"}, "qn": {"A": "C", "B": "D"}, "qo": {"A": "E", "B": "F"}, "qp": {"A": "G", "B": "H"}}
 
 def verify(pid, x):
     wt = "/tmp/%s-%s" % (ROOT_PREFIX, pid)
@@ -84,14 +84,24 @@ def run(sid, props):
     dst = "/verif/seeded/" + sid
     meta = json.load(open(dst + "/meta.json"))
     props = props or [meta["breaks_property"]]
-    assert sh("git -C /repo status --porcelain --untracked-files=no").stdout.strip() == "", "/repo not clean"
-    r = sh("git -C /repo apply %s/patch.diff" % dst)
-    assert r.returncode == 0, r.stdout
+    scratch = os.environ.get("SEED_SCRATCH")          # evaluate on a scratch copy instead of /repo itself (e.g. while a soak uses /repo)
+    env = dict(os.environ)
+    if scratch:
+        d = "/var/tmp/qseed-%s" % sid
+        shutil.rmtree(d, ignore_errors=True); os.makedirs(d)
+        shutil.copytree("/repo/src", d + "/src"); shutil.copytree("/repo/include", d + "/include")
+        r = sh("patch -p1 -s -d %s < %s/patch.diff" % (d, dst))
+        assert r.returncode == 0, r.stdout
+        env.update(QLIBC_REPO=d, VERIF_NOEVIDENCE="1", VERIF_REPLAY_DIR=d + "/replays")
+    else:
+        assert sh("git -C /repo status --porcelain --untracked-files=no").stdout.strip() == "", "/repo not clean"
+        r = sh("git -C /repo apply %s/patch.diff" % dst)
+        assert r.returncode == 0, r.stdout
     out = []
     try:
         for p in props:
             t0 = time.time()
-            r = sh("python3 /verif/verif.py check %s --tier quick" % p, cwd="/verif")
+            r = sh("python3 /verif/verif.py check %s --tier quick" % p, cwd="/verif", env=env)
             viol = [l for l in r.stdout.splitlines() if l.startswith("VIOLATION")]
             cls = [l.strip() for l in r.stdout.splitlines() if l.strip().startswith("class=")]
             rec = {"property": p, "cmd": "git -C /repo apply seeded/%s/patch.diff; python3 verif.py check %s --tier quick; git -C /repo checkout -- ." % (sid, p),
@@ -100,8 +110,11 @@ def run(sid, props):
             out.append(rec)
             print(sid, p, "CAUGHT" if rec["caught"] else "MISSED", rec["exit"], cls[:2])
     finally:
-        sh("git -C /repo checkout -- .")
-        sh("find /verif/replays -name '*.json' -delete")
+        if scratch:
+            shutil.rmtree("/var/tmp/qseed-%s" % sid, ignore_errors=True)
+        else:
+            sh("git -C /repo checkout -- .")
+            sh("find /verif/replays -name '*.json' -delete")
     meta["checks"] = [c for c in meta["checks"] if c["property"] not in props] + out
     json.dump(meta, open(dst + "/meta.json", "w"), indent=1)
 
